@@ -10,7 +10,11 @@
 (* are powers of ten (10^e, 10^f, either order), so that every bounds object is legal under either mode.  Edits:      *)
 (*    SetMode(text, via)        set_mode(name, text) / "name:mode = text" in a [Fitting] section; text in any of   *)
 (*                              the spellings of Priors.tla: ModeSpellings                                         *)
-(*    SetBoundary(b, ct, via)   set_boundary(name, <container ct holding b>) / "name:bounds = .." (a list)          *)
+(*    SetBoundary(b, ct, via)   set_boundary(name, <container ct holding b>) / "name:bounds = .." (a list), or -- the   *)
+(*                              other public route to the bounds (round 4) -- set_factor_boundary(name, (f, g)) /      *)
+(*                              "name:factor = f, g": the bounds become f, g times the present value of the parameter  *)
+(*                              (via = "factor" / "factor_file"; the harness chooses value and factors so that the      *)
+(*                              products are the bounds b of the step)                                                 *)
 (*    SetOther(b, ct)           the same for the companion                                                         *)
 (*    SetPrior(c, via)          set_prior(name, object) / create_prior(text) / "name:prior = .."                    *)
 (*    Again                     nothing is changed                                                                  *)
@@ -128,8 +132,9 @@ Init == /\ owner \in FocusOwners /\ cown \in CompOwners /\ decl \in Modes
 SetMode == \E text \in ModeTexts, via \in {"call", "file"}, n \in 0..MaxCompiles, rep \in 1..ModeWeight :
               /\ text # st.mtext
               /\ Do(Edit("mode", text, via, <<0, 0>>, "", NoCall), [Stale(st) EXCEPT !.mtext = text], n)
-SetBoundary == \E b \in Pairs(ES), ct \in Conts, via \in {"call", "file"}, n \in 0..MaxCompiles :
+SetBoundary == \E b \in Pairs(ES), ct \in Conts, via \in {"call", "file", "factor", "factor_file"}, n \in 0..MaxCompiles :
               /\ via = "file" => ct = "list"              \* the parser hands a list to set_boundary
+              /\ via \in {"factor", "factor_file"} => ct = "tuple"       \* set_factor_boundary makes the bounds object itself (a tuple)
               /\ Do(Edit("bounds", "", via, b, ct, NoCall), [Stale(st) EXCEPT !.bounds = b, !.cont = ct, !.depth = 0], n)
 SetOther == \E b \in Pairs(ES), ct \in OConts, n \in 0..MaxCompiles :
               /\ ct \in Containers
